@@ -16,6 +16,8 @@ pub mod c05;
 pub mod c06;
 pub mod c07;
 pub mod c08;
+pub mod c09;
+pub mod c10;
 
 pub fn scenarios(prop: &str, tier: Tier) -> Vec<Scenario> {
     match prop {
@@ -27,6 +29,8 @@ pub fn scenarios(prop: &str, tier: Tier) -> Vec<Scenario> {
         "C06" => c06::scenarios(tier),
         "C07" => c07::scenarios(tier),
         "C08" => c08::scenarios(tier),
+        "C09" => c09::scenarios(tier),
+        "C10" => c10::scenarios(tier),
         _ => vec![],
     }
 }
